@@ -21,13 +21,17 @@ Record ops (T : Type) := mkops {
   olog : T -> T; oexp : T -> T; olog1p : T -> T; omax : T -> T -> T;
   oofnat : nat -> T;
   oinvpsilog : T -> T;                (* autofit.messages.utils.invpsilog *)
-  oinvbeta : T -> T -> T * T          (* autofit.messages.beta.inv_beta_suffstats *)
+  oinvbeta : T -> T -> T * T;         (* autofit.messages.beta.inv_beta_suffstats *)
+  c10 : T; olog10 : T -> T;
+  ondtri : T -> T;                    (* transform.ndtri (scipy.special.ndtri inside (0,1)) *)
+  onormpdf : T -> T                   (* scipy.stats._continuous_distns._norm_pdf *)
 }.
 Arguments oadd {T}. Arguments osub {T}. Arguments omul {T}. Arguments odiv {T}.
 Arguments oopp {T}. Arguments osqrt {T}. Arguments osq {T}. Arguments c0 {T}.
 Arguments c1 {T}. Arguments c2 {T}. Arguments chalf {T}. Arguments olog {T}.
 Arguments oexp {T}. Arguments olog1p {T}. Arguments omax {T}. Arguments oofnat {T}.
-Arguments oinvpsilog {T}. Arguments oinvbeta {T}.
+Arguments oinvpsilog {T}. Arguments oinvbeta {T}. Arguments c10 {T}. Arguments olog10 {T}.
+Arguments ondtri {T}. Arguments onormpdf {T}.
 
 Inductive family := FNormal | FNatural | FGamma | FBeta | FFixed.
 
@@ -38,7 +42,8 @@ Definition family_eqb (a b : family) : bool :=
   end.
 
 (* transforms of a TransformedMessage, applied left to right (phi = ndtri/ndtr) *)
-Inductive transform := TPhi | TLog | TLog10 | TExp | TShift (shift scale : float).
+Inductive transform (T : Type) := TPhi | TLog | TLog10 | TExp | TShift (shift scale : T).
+Arguments TPhi {T}. Arguments TLog {T}. Arguments TLog10 {T}. Arguments TExp {T}. Arguments TShift {T}.
 
 (* code variants: the code that exists (`cur`) and the proposed repairs *)
 Record variant := mkvariant {
@@ -141,12 +146,12 @@ Section Generic.
   (* ---------- transformed messages ---------- *)
   Inductive mval :=
   | MB (m : msg)
-  | MT (stack : list transform) (tid : option Z) (tlo thi : float) (m : msg).
+  | MT (stack : list (transform T)) (tid : option Z) (tlo thi : float) (m : msg).
 
   Definition base_of (v : mval) : msg := match v with MB m => m | MT _ _ _ _ m => m end.
 
   (* TransformedMessage.with_base: id kept; limits are not passed to the constructor *)
-  Definition rewrap (V : variant) (s : list transform) (i : option Z) (l h : float) (m : msg) : mval :=
+  Definition rewrap (V : variant) (s : list (transform T)) (i : option Z) (l h : float) (m : msg) : mval :=
     if keep_limits V then MT s i l h m else MT s i neg_infinity infinity m.
 
   Inductive expr :=
@@ -202,6 +207,28 @@ Section Generic.
         end
     | EFromNat x => option_map (lift1 V b_fromnat) (eval V env x)
     end.
+
+  (* ---------- change of variables: TransformedMessage._transform_det / factor ---------- *)
+  (* AbstractDensityTransform.transform_det: (f(x), log f'(x)) of one transform *)
+  Definition t_apply (t : transform T) (x : T) : T * T :=
+    match t with
+    | TShift s c => (odiv O (osub O x s) c, omul O (oopp O (olog O c)) (c1 O))
+    | TLog => (olog O x, olog O (odiv O (c1 O) x))
+    | TExp => (oexp O x, olog O (oexp O x))
+    | TLog10 => (olog10 O x, olog O (odiv O (odiv O (c1 O) x) (olog O (c10 O))))
+    | TPhi => let f := ondtri O x in (f, olog O (odiv O (c1 O) (onormpdf O f)))
+    end.
+
+  (* rs = reversed(self.transforms); the log-determinants are accumulated from 0 *)
+  Fixpoint tdet (rs : list (transform T)) (x logd : T) : T * T :=
+    match rs with
+    | [] => (x, logd)
+    | t :: r => let yl := t_apply t x in tdet r (fst yl) (oadd O logd (snd yl))
+    end.
+  Definition transform_det (stack : list (transform T)) (x : T) : T * T := tdet (rev stack) x (c0 O).
+  (* factor(x) = base_message.logpdf(T x) + logd *)
+  Definition factor (base_logpdf : T -> T) (stack : list (transform T)) (x : T) : T :=
+    let yl := transform_det stack x in oadd O (base_logpdf (fst yl)) (snd yl).
 
   (* ---------- projection (moment matching) ---------- *)
   Definition seqsum (l : list T) : T := fold_left (oadd O) l (c0 O).
@@ -278,7 +305,8 @@ Fixpoint look2 (t : list (float * float * (float * float))) (x y : float) : floa
 
 Record tabs := mktabs {
   t_sq : tab1; t_log : tab1; t_exp : tab1; t_log1p : tab1; t_ipl : tab1;
-  t_ib : list (float * float * (float * float)) }.
+  t_ib : list (float * float * (float * float));
+  t_log10 : tab1; t_ndtri : tab1; t_normpdf : tab1 }.
 
 Definition nat2f (n : nat) : float := Z2F (Z.of_nat n).
 
@@ -290,7 +318,8 @@ Definition fops (is_scalar : bool) (tb : tabs) : ops float :=
         0%float 1%float 2%float 0.5%float
         (look1 (t_log tb)) (look1 (t_exp tb)) (look1 (t_log1p tb))
         (fun a b => if PrimFloat.ltb a b then b else a)
-        nat2f (look1 (t_ipl tb)) (look2 (t_ib tb)).
+        nat2f (look1 (t_ipl tb)) (look2 (t_ib tb))
+        10%float (look1 (t_log10 tb)) (look1 (t_ndtri tb)) (look1 (t_normpdf tb)).
 
 (* ---------- observables and comparison ---------- *)
 Fixpoint list_eqb {A} (eqb : A -> A -> bool) (a b : list A) : bool :=
@@ -302,7 +331,7 @@ Fixpoint list_eqb {A} (eqb : A -> A -> bool) (a b : list A) : bool :=
 Definition opt_eqb {A} (eqb : A -> A -> bool) (a b : option A) : bool :=
   match a, b with Some x, Some y => eqb x y | None, None => true | _, _ => false end.
 
-Definition transform_eqb (a b : transform) : bool :=
+Definition transform_eqb (a b : transform float) : bool :=
   match a, b with
   | TPhi, TPhi | TLog, TLog | TLog10, TLog10 | TExp, TExp => true
   | TShift s c, TShift s' c' => fbits_eqb s s' && fbits_eqb c c'
@@ -339,16 +368,24 @@ Inductive case :=
         (obs_elems : list (list float)) (obs_lognorm : list float) (obs_id : Z) (obs_l obs_h : float)
 (* cls.project raised *)
 | CProjExc (f : family)
+(* m._transform_det(x) = (y, logd) and m.factor(x), given base_message.logpdf(y) as an oracle value *)
+| CDet (tb : tabs) (stack : list (transform float)) (x : float) (base_lp : float)
+       (obs_y obs_logd obs_factor : float)
 (* TransformedMessage.project: the base is projected on the samples AS GIVEN, the result is
    re-wrapped with the same transforms and id; kwargs and limits are dropped *)
 | CTProj (tb : tabs) (f : family) (is_scalar : bool) (cols : list (list float * list float))
-         (stack : list transform) (tid : option Z)
-         (obs_stack : list transform) (obs_tid : option Z) (obs_tl obs_th : float)
+         (stack : list (transform float)) (tid : option Z)
+         (obs_stack : list (transform float)) (obs_tid : option Z) (obs_tl obs_th : float)
          (obs_elems : list (list float)) (obs_lognorm : list float) (obs_id : Z) (obs_l obs_h : float).
 
 Definition check_case (c : case) : bool :=
   match c with
   | CProjExc f => family_eqb f FBeta && negb (beta_project_ok cur)
+  | CDet tb st x lp oy ol ofac =>
+      let O := fops true tb in
+      let yl := transform_det O st x in
+      fbits_eqb (fst yl) oy && fbits_eqb (snd yl) ol
+      && fbits_eqb (factor O (fun _ => lp) st x) ofac
   | CAlg tb sc env e obs => opt_eqb mval_eqb (eval (fops sc tb) cur env e) obs
   | CProj tb f sc cols i l h oe oln oi ol oh =>
       let r := proj_msg tb f sc cols in
